@@ -274,8 +274,11 @@ def h_acquire(pre, mode):
     data = acquire_datagram(eng, world.IP2, which_peer, ip_address('10.2.0.77'), ip_address('10.1.0.88'), sport, dport, proto, index)
     header, msg, attributes = c14.MX.Xfrm.parse_message(data)
     n_before = len(ctl.ike_sas)
-    with E:
-        req, my_addr, peer_addr = ctl.process_acquire(msg, attributes)
+    try:
+        with E:
+            req, my_addr, peer_addr = ctl.process_acquire(msg, attributes)
+    except Exception as ex:     # noqa - raised by the code under test (the main loop would log it and drop the ACQUIRE)
+        return {'class': ['acquire'], 'violation': f'process_acquire raised {type(ex).__name__}: {ex}'}
     P = eng.prove
     entries = {7: conf.get_ike_configuration(world.IP2, world.IP1).protect[0], 9: conf.get_ike_configuration(world.IP2, world.IP1).protect[1]} \
         if which_peer == world.IP1 else {12: conf.get_ike_configuration(world.IP2, ip_address('192.168.0.3')).protect[0]}
@@ -393,8 +396,11 @@ def h_acquire_two_locals(pre):
     sport, dport = eng.sym_int('sport', 0, 65535), eng.sym_int('dport', 0, 65535)
     data = acquire_datagram(eng, alt, world.IP1, alt, world.IP1, sport, dport, 6, index)
     header, msg, attributes = c14.MX.Xfrm.parse_message(data)
-    with E:
-        req, my_addr, peer_addr = ctl.process_acquire(msg, attributes)
+    try:
+        with E:
+            req, my_addr, peer_addr = ctl.process_acquire(msg, attributes)
+    except Exception as ex:     # noqa - raised by the code under test (the main loop would log it and drop the ACQUIRE)
+        return {'class': ['acquire'], 'violation': f'process_acquire raised {type(ex).__name__}: {ex}'}
     P = eng.prove
     known = (index >> 3) == 13
     if req is None:
